@@ -101,7 +101,7 @@ def run(eng, rep) -> None:
     # free names of fcp.h.j2 at its render sites
     jb = JinjaBinding(eng)
     sites = [s for s in jb.sites if s.template == "fcp.h.j2"]
-    rep.floor("R03.1", "render sites of fcp.h.j2", len(sites), 3)
+    rep.floor("R03.1", "render sites of fcp.h.j2", len(sites), 1)
     tpath = sites[0].path if sites else None
     if tpath is None:
         raise AnalysisError("anchor vanished: fcp.h.j2 render site")
@@ -209,7 +209,7 @@ def r032(eng, rep, jb: JinjaBinding, t: JTemplate) -> None:
     if not params:
         rep.undecided("R03.2", t.relpath, "struct block", "constructor parameter loop", "not recognised")
         return
-    rep.floor("R03.2", "positional loops recognised in the struct block", sum(len(v) for k, v in groups.items() if k in ("ctor-param", "ctor-arg", "fromjson-arg", "decode-positional")), 3)
+    rep.floor("R03.2", "positional loops recognised in the struct block", sum(len(v) for k, v in groups.items() if k in ("ctor-param", "ctor-arg", "fromjson-arg", "decode-positional")), 1)
     for k, what in (("ctor-arg", "arguments of the constructor call in Decode"), ("fromjson-arg", "arguments built by FromJson"), ("decode-positional", "elements decoded directly into the constructor/braced initialiser")):
         for lp, o in groups.get(k, []):
             rep.check([o] == params, "R03.2", t.relpath, "struct block", "for %s in %s  [%s]" % (lp.target, lp.iter_src, k), "same order as the constructor parameters (%s)" % params[0],
@@ -240,7 +240,7 @@ def r033(eng, rep, t: JTemplate) -> None:
     block = m.group(1) if m else src
     widths = re.findall(r"PushWord<\s*UnderlyingType\s*,\s*\{\{(.*?)\}\}\s*>", block) + re.findall(r"return\s+\{\{(.*?)\}\}\s*;", block)
     uses_getsize = "GetWord(GetSize()" in block.replace(" ", "").replace("GetWord(GetSize()", "GetWord(GetSize()")
-    rep.floor("R03.3", "enum width expressions in the template", len(widths), 2)
+    rep.floor("R03.3", "enum width expressions in the template", len(widths), 1)
     for w in widths:
         rep.check(w.strip() == "enum.get_packed_size()", "R03.3", t.relpath, "enum block", "{{%s}}" % w.strip(), "canonical enum width", "enum width in the generated C++ is '%s', not enum.get_packed_size(): encoder, decoder or GetSize disagree with the canonical width" % w.strip())
     ut = re.search(r"using\s+UnderlyingType\s*=\s*([^;]*);", block)
